@@ -84,7 +84,7 @@ Record st := {
 
 Definition alive (w : st) (e : nat) : bool := negb (memb e (dead w)).
 Definition root_of (ws : nat) : nat := 1 + 2 * ws.      (* instances 0,2 = the root types, 1,3 = the roots *)
-Definition tuid (cls : nat) : nat := cls.                (* default_type_uid of the class; entity uids start at 100 *)
+Definition tuid (cls : nat) : nat := Nat.min cls 4.      (* default_type_uid of the class (0..4); entity uids start at 100 *)
 
 Definition set_E (w : st) (f : nat -> ent) : st :=
   {| n := n w; E := f; dead := dead w; R := R w; flat := flat w; fresh := fresh w |}.
